@@ -236,10 +236,12 @@ def run_property(pid, tier, seed, obligations, meta, jobs=None):
         json.dump(ev, f, indent=1, default=str)
     print("SUMMARY property=%s tier=%s obligations=%d discharged=%d known=%d violations=%d undecided=%d errors=%d wall=%.1fs"
           % (pid, tier, n, disc, len(known_hits), len(violations), len(undecided), len(errors), time.time() - t0))
-    if errors:
-        return 3
+    # a refuted obligation stands on its own witness: it is reported (exit 1) even when other obligations of the run could
+    # not be evaluated; without one, a checker error (3) outranks an undecided obligation (2)
     if violations:
         return 1
+    if errors:
+        return 3
     if undecided:
         return 2
     return 0
